@@ -117,7 +117,7 @@ def build_hank(
         # Correlations
         Ri = np.array(
             [
-                1 / (Ndat - k) * np.dot(Y[:, : Ndat - k], Yref[:, k:].T)
+                np.dot(Y[:, : Ndat - k] / (Ndat - k), Yref[:, k:].T)
                 for k in trange(p + q)
             ]
         )
